@@ -1,58 +1,205 @@
+// Driver for the TxRules family:
+//
+//	C16 (TxField.tla)  field x mutation x signature type x height class on types.Transaction
+//	C17 (TxGroup.tla)  group size x mutation rows on types.CreateTxGroup / Transactions.Check / CheckSign
+//	C19 (Pure.tla)     query histories on the address / public key / signature validity checks, replayed in a
+//	                   long-lived child process and compared with fresh child processes
+//
+// The table a behaviour belongs to is recognised from its first step.
 package main
 
 import (
+	"encoding/json"
 	"fmt"
+	"hash/fnv"
+	"math/rand"
 	"os"
-	"time"
+	"sort"
+	"strconv"
+	"strings"
+	"sync"
 
-	"github.com/33cn/chain33/common/address"
 	"github.com/33cn/chain33/common/crypto"
+	clog "github.com/33cn/chain33/common/log"
 	_ "github.com/33cn/chain33/system/address"
-	"github.com/33cn/chain33/system/address/btc"
 	_ "github.com/33cn/chain33/system/crypto/init"
-	"github.com/decred/base58"
-	"github.com/33cn/chain33/common"
+	"github.com/33cn/chain33/types"
+	"verif/harness/core"
 )
 
-func mk(ver byte, n int, good bool) string {
-	b := make([]byte, 1+n)
-	b[0] = ver
-	for i := 1; i <= n; i++ {
-		b[i] = byte(i * 7)
+type drv struct {
+	sub core.Driver
+}
+
+func (d *drv) Reset(env *core.Env, b *core.Behaviour) error {
+	if len(b.Steps) == 0 {
+		return fmt.Errorf("empty behaviour")
 	}
-	var ck []byte
-	if n == 20 {
-		ck = common.Sha2Sum(b)[:4]
-	} else {
-		ck = common.Sha2Sum(b)[:4]
+	switch b.Steps[0].Op() {
+	case "Sign":
+		d.sub = &fieldDrv{}
+	case "Create":
+		d.sub = &groupDrv{}
+	case "QueryAll", "Query":
+		d.sub = &pureDrv{}
+	default:
+		return fmt.Errorf("unknown table for first op %q", b.Steps[0].Op())
 	}
-	if !good {
-		ck[0] ^= 1
+	return d.sub.Reset(env, b)
+}
+
+func (d *drv) Apply(s core.Step) (any, any, error) { return d.sub.Apply(s) }
+
+func (d *drv) Close() {
+	if d.sub != nil {
+		d.sub.Close()
 	}
-	return base58.Encode(append(b, ck...))
+}
+
+func (d *drv) NonTrivial(env *core.Env, b *core.Behaviour) bool {
+	if c, ok := d.sub.(core.Classifier); ok {
+		return c.NonTrivial(env, b)
+	}
+	return true
+}
+
+func (d *drv) Signature(b *core.Behaviour, idx int, field string, exp, obs any) string {
+	if idx >= len(b.Steps) { // a panic is reported with the count of started steps
+		idx = len(b.Steps) - 1
+	}
+	if idx < 0 {
+		idx = 0
+	}
+	if s, ok := d.sub.(core.Signer); ok {
+		return s.Signature(b, idx, field, exp, obs)
+	}
+	return ""
+}
+
+// ---------------------------------------------------------------------------------------
+// process-wide configuration of the crypto drivers (options entypes / enh), applied once
+// through the public crypto.Init API with a sub-configuration for secp256k1eth.
+
+var (
+	cryptoOnce sync.Once
+	enHeights  = map[string]int64{}
+	enTypes    []string
+	cfgOnce    sync.Once
+	chainCfg   *types.Chain33Config
+)
+
+const evmChainID = 3999
+
+// parseHeights parses "name:h+name:h".
+func parseHeights(s string) map[string]int64 {
+	m := map[string]int64{}
+	for _, kv := range strings.Split(s, "+") {
+		p := strings.SplitN(kv, ":", 2)
+		if len(p) != 2 {
+			continue
+		}
+		n, err := strconv.ParseInt(p[1], 10, 64)
+		if err == nil {
+			m[p[0]] = n
+		}
+	}
+	return m
+}
+
+func initCrypto(env *core.Env) {
+	cryptoOnce.Do(func() {
+		if v := env.Opt("entypes", ""); v != "" {
+			enTypes = strings.Split(v, "+")
+		}
+		enHeights = parseHeights(env.Opt("enh", ""))
+		sub := map[string][]byte{"secp256k1eth": []byte(fmt.Sprintf(`{"evmChainID":%d}`, evmChainID))}
+		crypto.Init(&crypto.Config{EnableTypes: enTypes, EnableHeight: enHeights}, sub)
+	})
+}
+
+func chain33Cfg() *types.Chain33Config {
+	cfgOnce.Do(func() {
+		chainCfg = types.NewChain33Config(types.GetDefaultCfgstring())
+	})
+	return chainCfg
+}
+
+// typeOff mirrors what crypto.Init does with the options: is the type disabled at every height?
+func typeOff(name string) bool {
+	en := name != "none" // none registers with WithRegOptionDefaultDisable
+	if len(enTypes) > 0 {
+		en = false
+		for _, t := range enTypes {
+			if t == name {
+				en = true
+			}
+		}
+	}
+	if !en {
+		return true
+	}
+	if h, ok := enHeights[name]; ok && h < 0 {
+		return true
+	}
+	return false
+}
+
+func enableHeight(name string) int64 {
+	if h, ok := enHeights[name]; ok && !typeOff(name) {
+		return h
+	}
+	return 0
+}
+
+// ---------------------------------------------------------------------------------------
+// seeded randomness per behaviour
+
+func rng(env *core.Env, id string, extra string) *rand.Rand {
+	h := fnv.New64a()
+	h.Write([]byte(id))
+	h.Write([]byte{0})
+	h.Write([]byte(extra))
+	return rand.New(rand.NewSource(env.Seed*1000003 + int64(h.Sum64()>>1) + int64(env.OptInt("salt", 0))*7919))
+}
+
+func rbytes(r *rand.Rand, n int) []byte {
+	b := make([]byte, n)
+	r.Read(b)
+	return b
+}
+
+func jsonOut(env *core.Env, v any) int {
+	b, _ := json.MarshalIndent(v, "", " ")
+	if p := env.Opt("out", ""); p != "" {
+		if err := os.WriteFile(p, b, 0o644); err != nil {
+			fmt.Fprintln(os.Stderr, err)
+			return 2
+		}
+		return 0
+	}
+	fmt.Println(string(b))
+	return 0
+}
+
+func sortedKeys[V any](m map[string]V) []string {
+	ks := make([]string, 0, len(m))
+	for k := range m {
+		ks = append(ks, k)
+	}
+	sort.Strings(ks)
+	return ks
 }
 
 func main() {
-	t0 := time.Now()
-	if len(os.Args) > 1 && os.Args[1] == "noop" {
-		return
-	}
-	address.Init(&address.Config{EnableHeight: map[string]int64{"eth": 100, "btcMultiSign": 0}})
-	crypto.Init(&crypto.Config{}, nil)
-	_ = btc.NormalName
-	ins := map[string]string{
-		"btc": mk(0, 20, true), "ms": mk(5, 20, true), "badver": mk(7, 20, true), "badsum": mk(0, 20, false),
-		"long": mk(0, 24, false), "longok": mk(0, 24, true), "junk": "hello world!!", "eth": "0xde0b295669a9fd93d5f28d9ec85e40f4cb697bae",
-		"ethmix": "0xde0B295669a9FD93d5F28D9Ec85E40f4cb697BAe", "short": "1111", "empty": "",
-	}
-	for k, a := range ins {
-		for id, d := range address.GetDriverList() {
-			fmt.Printf("%-7s drv=%d %v\n", k, id, d.ValidateAddr(a))
-		}
-	}
-	a := ins["eth"]
-	fmt.Println("eth@50", address.CheckAddress(a, 50), "eth@150", address.CheckAddress(a, 150))
-	b := ins["ethmix"]
-	fmt.Println("ethmix@150", address.CheckAddress(b, 150), "ethmix@50", address.CheckAddress(b, 50))
-	fmt.Println(time.Since(t0))
+	clog.SetLogLevel("crit") // rejected signatures are logged at error level by some drivers
+	core.Main(&core.Family{
+		Name:      "TxRules",
+		NewDriver: func() core.Driver { return &drv{} },
+		Recorders: map[string]core.Recorder{"pure": recordPure},
+		Extra: map[string]func(env *core.Env, args []string) int{
+			"fields":   cmdFields,
+			"child":    cmdChild,
+			"verdicts": cmdVerdicts,
+		},
+	})
 }
